@@ -231,7 +231,9 @@ fn body_stars(n: usize) -> impl Fn(&Ch) -> Run + Sync + Send {
     }
     // how the star edges are spelled: directly, through a specifier the loader
     // redirects, or (additionally) as a namespace re-export
-    let spelling = ch.shape("star_edge_spelling", 3);
+    // (3: the edge carries a @ts-types pragma - for the symbol tables, which
+    // describe types, its star re-export is the declaration file's)
+    let spelling = ch.shape("star_edge_spelling", 4);
     let mut files = vec![];
     let mut ns_names: Vec<Vec<String>> = vec![vec![]; n];
     for i in 0..n {
@@ -243,6 +245,7 @@ fn body_stars(n: usize) -> impl Fn(&Ch) -> Run + Sync + Send {
             s.push_str(&format!("export * from \"./m{j}.ts\";\nexport * as ns{j} from \"./m{j}.ts\";\n"));
             ns_names[i].push(format!("ns{j}"));
           }
+          3 => s.push_str(&format!("// @ts-types=\"./t{j}.d.ts\"\nexport * from \"./m{j}.ts\";\n")),
           _ => s.push_str(&format!("export * from \"./m{j}.ts\";\n")),
         }
       }
@@ -261,6 +264,11 @@ fn body_stars(n: usize) -> impl Fn(&Ch) -> Run + Sync + Send {
         files.push((format!("https://s/r{j}.ts"), format!("=> https://s/m{j}.ts")));
       }
     }
+    if spelling == 3 {
+      for j in 0..n {
+        files.push((format!("https://s/t{j}.d.ts"), format!("export declare const typed{j}: number;\nexport default {j};\n")));
+      }
+    }
     let Some((graph, analyzer)) = build_files(&files, &roots, ch) else {
       run.violate("build-did-not-finish", "deadlock", json!({}));
       return run;
@@ -276,7 +284,11 @@ fn body_stars(n: usize) -> impl Fn(&Ch) -> Run + Sync + Send {
       let mut changed = false;
       for i in 0..n {
         for j in &edges[i] {
-          let add: Vec<String> = names[*j].iter().filter(|x| *x != "default").cloned().collect();
+          let add: Vec<String> = if spelling == 3 {
+            vec![format!("typed{j}")]
+          } else {
+            names[*j].iter().filter(|x| *x != "default").cloned().collect()
+          };
           for a in add {
             changed |= names[i].insert(a);
           }
